@@ -39,6 +39,7 @@ Definition raw_first_byte (c : wcfg) : Z :=
   | LWebsocket :: _ => 71
   | LHeadByte :: _ => Sniff.frp_tls_head_byte
   | LTls :: _ => Sniff.tls_handshake_byte
+  | LQuic :: _ => -1
   | [] => if from_ptr (ct_tcp_mux (w_client c)) then 0 else 111
   end.
 
